@@ -33,6 +33,13 @@ func (g Guard) Seen(a, b interface{}) bool {
 	return false
 }
 
+// Done removes the combination of the given values from the guard. It is called when a comparison that was registered
+// with Seen has been completed: only a comparison that is still in progress may be assumed to be true when it is
+// encountered again. A completed one must be evaluated again (its answer may well have been false).
+func (g Guard) Done(a, b interface{}) {
+	delete(g, visit{a, b})
+}
+
 // Equals will compare two values for equality. If the first value implements the Equality interface, then
 // the that interface is used. If the first value is a primitive, then the primitive will be compared using
 // ==. The default behavior is to delegate to reflect.DeepEqual.
